@@ -62,13 +62,19 @@ async def _run(loop, sc):
                     self.src.push(Ev(T0 + datetime.timedelta(milliseconds=when), eid, dur))
                     log.append(("arrive", self.i, when, eid, ms(fake_now())))
 
+        def when_dt(when_ms, jid):
+            """the instant of a job, expressed in the time zone the scenario gives that job (the same instant)"""
+            dt_utc = T0 + datetime.timedelta(milliseconds=when_ms)
+            off = sc.get("job_tz", {}).get(str(jid), 0)
+            return dt_utc.astimezone(datetime.timezone(datetime.timedelta(minutes=off))) if off else dt_utc
+
         def make_handler(i):
             async def handler(ev):
                 running[0] += 1
                 log.append(("ev", i, ev.eid, ms(ev.when), ms(fake_now()), running[0]))
                 try:
                     for f in sc["bev"].get(str(ev.eid), []):
-                        d.schedule(T0 + datetime.timedelta(milliseconds=f[0]), make_job(f[1], f[0], f[2]))
+                        d.schedule(when_dt(f[0], f[1]), make_job(f[1], f[0], f[2]))
                         log.append(("sched", f[0], f[1], ms(fake_now())))
                     if ev.dur:
                         await asyncio.sleep(ev.dur / MS)
@@ -94,7 +100,7 @@ async def _run(loop, sc):
             srcs.append(p.src)
             d.subscribe(p.src, make_handler(i))
         for when, jid, dur in sc["jobs"]:
-            d.schedule(T0 + datetime.timedelta(milliseconds=when), make_job(jid, when, dur))
+            d.schedule(when_dt(when, jid), make_job(jid, when, dur))
             log.append(("sched", when, jid, 0))
         for k in range(sc["n_idle"]):
             def mk(k):
@@ -319,5 +325,22 @@ def gen_scenario(rnd, model=False):
     for _ in range(rnd.randint(0, 5)):
         jid[0] += 1
         jobs.append([rnd.choice([-50, 0, 30, 100, 100, 400, 800, 9000]), jid[0], 0 if model else rnd.choice([0, 0, 20])])
+    job_tz = {str(j[1]): rnd.choice([0, 0, -300, 330, 60]) for j in jobs}
+    for fs in bev.values():
+        for f in fs:
+            job_tz[str(f[1])] = rnd.choice([0, 0, -300, 330])
     return {"sources": sources, "jobs": jobs, "bev": bev, "raise": rz, "n_idle": rnd.choice([0, 1, 2]),
-            "mc": 50 if model else rnd.choice([1, 2, 5, 50]), "end": end}
+            "mc": 50 if model else rnd.choice([1, 2, 5, 50]), "end": end, "job_tz": job_tz}
+
+
+def gen_burst(rnd, n=700):
+    """A backlog: hundreds of events that all just happened when the dispatcher starts, from two sources."""
+    sources, eid = [], 0
+    for i in range(2):
+        arr = []
+        for k in range(n):
+            eid += 1
+            arr.append([0, -1 - (n - k), eid, 0])
+        sources.append(arr)
+    return {"sources": sources, "jobs": [[100, 1, 0]], "bev": {}, "raise": {}, "n_idle": 0, "mc": rnd.choice([5, 50]),
+            "end": 600, "job_tz": {}}
